@@ -101,8 +101,9 @@ func (i *imports) Imports() []Import {
 
 func (i *imports) decorateImport(imp string) string {
 	for shortcut, path := range i.prefixes {
-		if strings.Index(imp, shortcut) == 0 {
-			return strings.Replace(imp, shortcut, path, 1)
+		// an alias stands for a whole path segment: "exp" matches "exp" and "exp/os", but not "exp1/os"
+		if imp == shortcut || strings.HasPrefix(imp, shortcut+"/") {
+			return path + strings.TrimPrefix(imp, shortcut)
 		}
 	}
 
